@@ -243,3 +243,9 @@ def inline_x_tie(ctx: Ctx, drv: Driver, n: int) -> None:
                          {"input": m[0], "rules": m[1], "maxNesting": m[2], "fragments_join": m[3], "text_join": m[4], "html": m[5],
                           "impl": e[:500], "model": g[:500]})
     ctx.cov["inline_x_tie"] = {"documents": len(lines), "streams_with": kinds}
+
+
+def tie_leaf(ctx: Ctx, drv: Driver, quick: bool) -> None:
+    """both ties of the translated regular expressions and of the inline leaf rules"""
+    rx_subtie(ctx, drv, 60 if quick else 700)
+    inline_x_tie(ctx, drv, 1500 if quick else 40000)
